@@ -2,12 +2,23 @@
 //   reverse rotate shift_left shift_right remove remove_if unique partition stable_partition
 //   sort stable_sort nth_element partial_sort inplace_merge
 //   bubble_sort exchange_sort gnome_sort insertion_sort merge_sort (tetl extensions)
+// With -DC06_MOVEONLY the same families run over the move-only element type M, plus move/move_backward/
+// swap_ranges/iter_swap (jobs moveonly/...).  The sort jobs continue beyond the main pool with every sequence
+// over two keys up to length 10 (quick) / 14 (thorough).
 // Specification masks: tail after remove/unique, vacated part after shift_*, order inside the
 // classes of partition, order of equivalent elements for the unstable sorts (held to: sorted by
 // the comparator + same multiset of (key,tag)), nth_element/partial_sort by their postconditions.
 #include "c06_common.hpp"
 
 using namespace c06;
+
+// -DC06_MOVEONLY: the same families over the move-only element type M (the algorithms that may only move:
+// everything here except the two sorts tetl implements by copying - see the note at stable_sort below)
+#if defined(C06_MOVEONLY)
+using El = M;
+#else
+using El = E;
+#endif
 
 namespace {
 
@@ -19,10 +30,10 @@ bool plain_sorted(E const* f, E const* l)
 
 /// reference for sorts on flavours libstdc++ cannot sort through: sorts the block in the flavour's iteration order
 template <typename F, typename Cm>
-void ref_sort(Buf<E>& A, Cm cm)
+void ref_sort(Buf<El>& A, Cm cm)
 {
     if constexpr (F::reversed) {
-        std::stable_sort(std::reverse_iterator<E*>(A.e()), std::reverse_iterator<E*>(A.b()), cm);
+        std::stable_sort(std::reverse_iterator<El*>(A.e()), std::reverse_iterator<El*>(A.b()), cm);
     } else {
         std::stable_sort(A.b(), A.e(), cm);
     }
@@ -40,7 +51,7 @@ void permute_family(Ctx& c, Seq const& a)
     if constexpr (F::rank >= 2) {
         if (c.want("reverse(first,last)")) {
             c.run("reverse(first,last)", nt, [&](auto lib, Obs& o) {
-                Buf<E> A(mem<F>(a));
+                Buf<El> A(mem<F>(a));
                 C06_ALG(reverse)(lib, F::at(lib, A, 0), F::at(lib, A, n));
                 o.buf(A);
             }, cls, kase0);
@@ -49,7 +60,7 @@ void permute_family(Ctx& c, Seq const& a)
     if (c.want("rotate(first,n_first,last)")) {
         for (std::size_t mid = 0; mid <= n; ++mid) {
             c.run("rotate(first,n_first,last)", nt, [&](auto lib, Obs& o) {
-                Buf<E> A(mem<F>(a));
+                Buf<El> A(mem<F>(a));
                 auto it = C06_ALG(rotate)(lib, F::at(lib, A, 0), F::at(lib, A, mid), F::at(lib, A, n));
                 o.num(F::off(A, it));
                 o.buf(A);
@@ -64,7 +75,7 @@ void permute_family(Ctx& c, Seq const& a)
         bool const moves = sh > 0 && sh < n;
         if (c.want("shift_left(first,last,n)")) {
             c.run("shift_left(first,last,n)", nt, [&](auto lib, Obs& o) {
-                Buf<E> A(mem<F>(a));
+                Buf<El> A(mem<F>(a));
                 auto it        = C06_ALG(shift_left)(lib, F::at(lib, A, 0), F::at(lib, A, n), static_cast<std::ptrdiff_t>(sh));
                 auto const ret = F::off(A, it);
                 o.num(ret);
@@ -75,7 +86,7 @@ void permute_family(Ctx& c, Seq const& a)
         if constexpr (F::rank >= 2) { // tetl's shift_right needs bidirectional iterators (std: forward) - API gap for forward
             if (c.want("shift_right(first,last,n)")) {
                 c.run("shift_right(first,last,n)", nt, [&](auto lib, Obs& o) {
-                    Buf<E> A(mem<F>(a));
+                    Buf<El> A(mem<F>(a));
                     auto it = C06_ALG(shift_right)(lib, F::at(lib, A, 0), F::at(lib, A, n), static_cast<std::ptrdiff_t>(sh));
                     o.num(F::off(A, it));
                     o.template view<F>(A, moves ? sh : 0, n);
@@ -84,11 +95,11 @@ void permute_family(Ctx& c, Seq const& a)
         }
     }
     for (int k = 0; k <= 3; ++k) {
-        E const value{k, value_tag};
+        El const value{k, value_tag};
         auto const keep = n - static_cast<std::size_t>(std::count_if(a.begin(), a.end(), [&](E const& e) { return e.key == k; }));
         if (c.want("remove(first,last,value)")) {
             c.run("remove(first,last,value)", nt, [&](auto lib, Obs& o) {
-                Buf<E> A(mem<F>(a));
+                Buf<El> A(mem<F>(a));
                 allow(value);
                 auto it = C06_ALG(remove)(lib, F::at(lib, A, 0), F::at(lib, A, n), value);
                 o.num(F::off(A, it));
@@ -103,7 +114,7 @@ void permute_family(Ctx& c, Seq const& a)
         auto kase      = [&] { return cat(fl, " a=", keys(a), " pred=", P::name); };
         if (c.want("remove_if(first,last,pred)")) {
             c.run("remove_if(first,last,pred)", nt, [&](auto lib, Obs& o) {
-                Buf<E> A(mem<F>(a));
+                Buf<El> A(mem<F>(a));
                 auto it = C06_ALG(remove_if)(lib, F::at(lib, A, 0), F::at(lib, A, n), P{});
                 o.num(F::off(A, it));
                 o.template view<F>(A, 0, n - yes);
@@ -111,7 +122,7 @@ void permute_family(Ctx& c, Seq const& a)
         }
         if (c.want("partition(first,last,pred)")) {
             c.run("partition(first,last,pred)", nt, [&](auto lib, Obs& o) {
-                Buf<E> A(mem<F>(a));
+                Buf<El> A(mem<F>(a));
                 auto it        = C06_ALG(partition)(lib, F::at(lib, A, 0), F::at(lib, A, n), P{});
                 auto const ret = F::off(A, it);
                 o.num(ret);
@@ -127,7 +138,7 @@ void permute_family(Ctx& c, Seq const& a)
         if constexpr (F::rank >= 3) { // tetl's stable_partition uses l - f and f + n (std: bidirectional) - API gap below random access
             if (c.want("stable_partition(first,last,pred)")) {
                 c.run("stable_partition(first,last,pred)", nt, [&](auto lib, Obs& o) {
-                    Buf<E> A(mem<F>(a));
+                    Buf<El> A(mem<F>(a));
                     auto it = C06_ALG(stable_partition)(lib, F::at(lib, A, 0), F::at(lib, A, n), P{});
                     o.num(F::off(A, it));
                     o.buf(A);
@@ -147,7 +158,7 @@ void permute_family(Ctx& c, Seq const& a)
         if (c.want("unique(first,last)")) {
             auto const k = groups([](E const& x, E const& y) { return x.key == y.key; });
             c.run("unique(first,last)", nt, [&](auto lib, Obs& o) {
-                Buf<E> A(mem<F>(a));
+                Buf<El> A(mem<F>(a));
                 auto it = C06_ALG(unique)(lib, F::at(lib, A, 0), F::at(lib, A, n));
                 o.num(F::off(A, it));
                 o.template view<F>(A, 0, k);
@@ -156,14 +167,14 @@ void permute_family(Ctx& c, Seq const& a)
         if (c.want("unique(first,last,pred)")) {
             auto const k2 = groups([](E const& x, E const& y) { return (x.key & 1) == (y.key & 1); });
             c.run("unique(first,last,pred)", nt, [&](auto lib, Obs& o) {
-                Buf<E> A(mem<F>(a));
+                Buf<El> A(mem<F>(a));
                 auto it = C06_ALG(unique)(lib, F::at(lib, A, 0), F::at(lib, A, n), EqMod2{});
                 o.num(F::off(A, it));
                 o.template view<F>(A, 0, k2);
             }, [&] { return cat(len_class(n), k2 == n ? "+no_duplicates" : ""); }, [&] { return cat(fl, " a=", keys(a), " pred=eqmod2"); });
             auto const k3 = n == 0 ? std::size_t(0) : std::size_t(1);
             c.run("unique(first,last,pred)", nt, [&](auto lib, Obs& o) {
-                Buf<E> A(mem<F>(a));
+                Buf<El> A(mem<F>(a));
                 auto it = C06_ALG(unique)(lib, F::at(lib, A, 0), F::at(lib, A, n), True2{});
                 o.num(F::off(A, it));
                 o.template view<F>(A, 0, k3);
@@ -179,7 +190,7 @@ void permute_family(Ctx& c, Seq const& a)
 #define C06_UNSTABLE(SUBJ, ETLCALL, STDCALL)                                                                                    \
     if (c.want(SUBJ)) {                                                                                                         \
         c.run(SUBJ, nt, [&](auto lib, Obs& o) {                                                                                 \
-            Buf<E> A(mem<F>(a));                                                                                                        \
+            Buf<El> A(mem<F>(a));                                                                                                        \
             auto f = F::at(lib, A, 0);                                                                                          \
             auto l = F::at(lib, A, n);                                                                                          \
             if constexpr (decltype(lib)::is_etl) {                                                                              \
@@ -195,7 +206,7 @@ void permute_family(Ctx& c, Seq const& a)
 #define C06_STABLE(SUBJ, ETLCALL, STDCALL)                                                                                      \
     if (c.want(SUBJ)) {                                                                                                         \
         c.run(SUBJ, nt, [&](auto lib, Obs& o) {                                                                                 \
-            Buf<E> A(mem<F>(a));                                                                                                        \
+            Buf<El> A(mem<F>(a));                                                                                                        \
             auto f = F::at(lib, A, 0);                                                                                          \
             auto l = F::at(lib, A, n);                                                                                          \
             if constexpr (decltype(lib)::is_etl) {                                                                              \
@@ -221,8 +232,12 @@ void sort_family(Ctx& c, Seq const& a)
             C06_UNSTABLE("sort(first,last)", etl::sort(f, l), std::sort(f, l))
             C06_UNSTABLE("bubble_sort(first,last)", etl::bubble_sort(f, l), std::sort(f, l))
             C06_UNSTABLE("exchange_sort(first,last)", etl::exchange_sort(f, l), std::sort(f, l))
+#if !defined(C06_MOVEONLY)
+            // API gap: etl::insertion_sort (and stable_sort, which forwards to it) copies elements
+            // (`auto key = *i; *j = *(j - 1);`) and does not compile for a move-only value type
             C06_STABLE("stable_sort(first,last)", etl::stable_sort(f, l), std::stable_sort(f, l))
             C06_STABLE("insertion_sort(first,last)", etl::insertion_sort(f, l), std::stable_sort(f, l))
+#endif
             C06_STABLE("merge_sort(first,last)", etl::merge_sort(f, l), std::stable_sort(f, l))
         }
         C06_UNSTABLE("gnome_sort(first,last)", etl::gnome_sort(f, l), ((void)f, (void)l, ref_sort<F>(A, Cm{})))
@@ -234,8 +249,10 @@ void sort_family(Ctx& c, Seq const& a)
             C06_UNSTABLE("sort(first,last,comp)", etl::sort(f, l, Cm{}), std::sort(f, l, Cm{}))
             C06_UNSTABLE("bubble_sort(first,last,comp)", etl::bubble_sort(f, l, Cm{}), std::sort(f, l, Cm{}))
             C06_UNSTABLE("exchange_sort(first,last,comp)", etl::exchange_sort(f, l, Cm{}), std::sort(f, l, Cm{}))
+#if !defined(C06_MOVEONLY)
             C06_STABLE("stable_sort(first,last,comp)", etl::stable_sort(f, l, Cm{}), std::stable_sort(f, l, Cm{}))
             C06_STABLE("insertion_sort(first,last,comp)", etl::insertion_sort(f, l, Cm{}), std::stable_sort(f, l, Cm{}))
+#endif
             C06_STABLE("merge_sort(first,last,comp)", etl::merge_sort(f, l, Cm{}), std::stable_sort(f, l, Cm{}))
         }
         C06_UNSTABLE("gnome_sort(first,last,comp)", etl::gnome_sort(f, l, Cm{}), ((void)f, (void)l, ref_sort<F>(A, Cm{})))
@@ -247,7 +264,7 @@ void sort_family(Ctx& c, Seq const& a)
                 // nth_element: nothing in [nth,last) is less than anything in [first,nth]; permutation
                 if (c.want("nth_element(first,nth,last,comp)")) {
                     c.run("nth_element(first,nth,last,comp)", nt, [&](auto lib, Obs& o) {
-                        Buf<E> A(mem<F>(a));
+                        Buf<El> A(mem<F>(a));
                         C06_ALG(nth_element)(lib, F::at(lib, A, 0), F::at(lib, A, mid), F::at(lib, A, n), Cm{});
                         bool ok = true;
                         for (std::size_t i = 0; i < mid; ++i) {
@@ -260,7 +277,7 @@ void sort_family(Ctx& c, Seq const& a)
                 // partial_sort: [first,middle) sorted and not greater than the rest; permutation
                 if (c.want("partial_sort(first,middle,last,comp)")) {
                     c.run("partial_sort(first,middle,last,comp)", nt, [&](auto lib, Obs& o) {
-                        Buf<E> A(mem<F>(a));
+                        Buf<El> A(mem<F>(a));
                         C06_ALG(partial_sort)(lib, F::at(lib, A, 0), F::at(lib, A, mid), F::at(lib, A, n), Cm{});
                         bool ok = sorted_view<F, Cm>(A, 0, mid);
                         for (std::size_t i = 0; i < mid; ++i) {
@@ -273,7 +290,7 @@ void sort_family(Ctx& c, Seq const& a)
                 if constexpr (std::is_same_v<Cm, Less>) {
                     if (c.want("nth_element(first,nth,last)")) {
                         c.run("nth_element(first,nth,last)", nt, [&](auto lib, Obs& o) {
-                            Buf<E> A(mem<F>(a));
+                            Buf<El> A(mem<F>(a));
                             C06_ALG(nth_element)(lib, F::at(lib, A, 0), F::at(lib, A, mid), F::at(lib, A, n));
                             bool ok = true;
                             for (std::size_t i = 0; i < mid; ++i) {
@@ -285,7 +302,7 @@ void sort_family(Ctx& c, Seq const& a)
                     }
                     if (c.want("partial_sort(first,middle,last)")) {
                         c.run("partial_sort(first,middle,last)", nt, [&](auto lib, Obs& o) {
-                            Buf<E> A(mem<F>(a));
+                            Buf<El> A(mem<F>(a));
                             C06_ALG(partial_sort)(lib, F::at(lib, A, 0), F::at(lib, A, mid), F::at(lib, A, n));
                             bool ok = sorted_view<F, Cm>(A, 0, mid);
                             for (std::size_t i = 0; i < mid; ++i) {
@@ -300,7 +317,7 @@ void sort_family(Ctx& c, Seq const& a)
                 if (plain_sorted<Cm>(a.data(), a.data() + mid) && plain_sorted<Cm>(a.data() + mid, a.data() + n)) {
                     if (c.want("inplace_merge(first,middle,last,comp)")) {
                         c.run("inplace_merge(first,middle,last,comp)", nt, [&](auto lib, Obs& o) {
-                            Buf<E> A(mem<F>(a));
+                            Buf<El> A(mem<F>(a));
                             C06_ALG(inplace_merge)(lib, F::at(lib, A, 0), F::at(lib, A, mid), F::at(lib, A, n), Cm{});
                             o.buf(A);
                         }, mcls, mkase);
@@ -308,7 +325,7 @@ void sort_family(Ctx& c, Seq const& a)
                     if constexpr (std::is_same_v<Cm, Less>) {
                         if (c.want("inplace_merge(first,middle,last)")) {
                             c.run("inplace_merge(first,middle,last)", nt, [&](auto lib, Obs& o) {
-                                Buf<E> A(mem<F>(a));
+                                Buf<El> A(mem<F>(a));
                                 C06_ALG(inplace_merge)(lib, F::at(lib, A, 0), F::at(lib, A, mid), F::at(lib, A, n));
                                 o.buf(A);
                             }, mcls, mkase);
@@ -336,8 +353,140 @@ void job_permute(mc::Reporter& r, int qL, int tL)
     r.sample(cat(F::name, " a=", keys(pool.back()), " (last sequence)"));
 }
 
+/// `long2`: after the main pool, every sequence of length L+1..long2 over the two keys {0,1} (tags = positions):
+/// the next size classes of the recursive/merging sorts (merge_sort recursion depth 4, inplace_merge with long
+/// runs of equivalent elements on both sides, stable_partition/rotate inside them), where almost every element has
+/// equivalent neighbours, so any loss of stability or of an element shows
 template <typename F>
-void job_sort(mc::Reporter& r, int qL, int tL)
+void job_sort(mc::Reporter& r, int qL, int tL, int qLong2 = 0, int tLong2 = 0)
+{
+    Ctx c(r);
+    auto const bd   = bounds(r, qL, 0, tL, 0);
+    auto const pool = make_pool(bd.L, 3, 0);
+    std::uint64_t seqs = pool.size();
+    for (auto const& a : pool) {
+        if (c.out_of_time()) { break; }
+        sort_family<F>(c, a);
+    }
+    int const long2 = r.thorough() ? tLong2 : qLong2;
+    if (long2 > bd.L) {
+        for (auto const& a : make_pool(long2, 2, 0)) {
+            if (static_cast<int>(a.size()) <= bd.L) { continue; }
+            if (c.out_of_time()) { break; }
+            ++seqs;
+            sort_family<F>(c, a);
+        }
+        r.sample(cat(F::name, ": every sequence of length ", bd.L + 1, "..", long2, " over keys {0,1}: the same sorts, comparators and splits"));
+    }
+    r.count("sequences", seqs);
+    r.sample(cat(F::name, ": every sequence of length 0..", bd.L,
+        " over keys {0,1,2}: 8 sorts x {operator<, less, greater, mod2less}, nth_element/partial_sort/inplace_merge at every split"));
+    r.sample(cat(F::name, " a=", keys(pool.back()), " (last sequence)"));
+}
+
+// ------------------------------------------------------------------------------------------
+// move / move_backward / swap_ranges / iter_swap (the move-only build has no copying algorithms, so the moving
+// ones of c06_copy.cpp are repeated here over M); within one buffer: every source [i,j) and every destination
+// the standard allows (d_first not in [first,last) / d_last not in (first,last])
+// ------------------------------------------------------------------------------------------
+template <typename F>
+void move_family(Ctx& c, Seq const& a)
+{
+    auto const n  = a.size();
+    bool const nt = n >= 2;
+    std::string const fl = F::name;
+    auto cls   = [&] { return len_class(n); };
+    auto kase0 = [&] { return cat(fl, " a=", keys(a)); };
+    if (c.want("move(first,last,d_first)")) {
+        c.run("move(first,last,d_first)", nt, [&](auto lib, Obs& o) {
+            Buf<El> A(mem<F>(a));
+            Buf<El> D(n, filler);
+            auto it = C06_ALG(move)(lib, F::at(lib, A, 0), F::at(lib, A, n), F::at(lib, D, 0));
+            o.num(F::off(D, it));
+            o.buf(D); // the moved-from source is unspecified: not compared
+        }, cls, kase0);
+    }
+    if constexpr (F::rank >= 2) {
+        if (c.want("move_backward(first,last,d_last)")) {
+            c.run("move_backward(first,last,d_last)", nt, [&](auto lib, Obs& o) {
+                Buf<El> A(mem<F>(a));
+                Buf<El> D(n, filler);
+                auto it = C06_ALG(move_backward)(lib, F::at(lib, A, 0), F::at(lib, A, n), F::at(lib, D, n));
+                o.num(F::off(D, it));
+                o.buf(D);
+            }, cls, kase0);
+        }
+    }
+    for (std::size_t i = 0; i <= n; ++i) {
+        for (std::size_t j = i; j <= n; ++j) {
+            auto const len = j - i;
+            for (std::size_t d = 0; d + len <= n; ++d) {
+                bool const overlap = d < j && i < d + len;
+                auto ocls = [&] { return cat(len_class(len), overlap ? "+overlap" : "+disjoint"); };
+                auto kase = [&] { return cat(fl, " a=", keys(a), " first=", i, " last=", j, " d_first=", d); };
+                // positions that are moved-from and not overwritten afterwards are unspecified
+                auto observe = [&](Obs& o, Buf<El>& A) {
+                    o.sep();
+                    for (std::size_t p = 0; p < n; ++p) {
+                        bool const in_src = p >= i && p < j;
+                        bool const in_dst = p >= d && p < d + len;
+                        if (in_src && !in_dst) { continue; }
+                        o.elem(at_view<F>(A, p));
+                    }
+                };
+                if ((d < i || d >= j || len == 0) && c.want("move(first,last,d_first) within one buffer")) {
+                    c.run("move(first,last,d_first) within one buffer", nt, [&](auto lib, Obs& o) {
+                        Buf<El> A(mem<F>(a));
+                        auto it = C06_ALG(move)(lib, F::at(lib, A, i), F::at(lib, A, j), F::at(lib, A, d));
+                        o.num(F::off(A, it));
+                        observe(o, A);
+                    }, ocls, kase);
+                }
+                if constexpr (F::rank >= 2) {
+                    auto const dl = d + len; // d_last
+                    if ((dl <= i || dl > j || len == 0) && c.want("move_backward(first,last,d_last) within one buffer")) {
+                        c.run("move_backward(first,last,d_last) within one buffer", nt, [&](auto lib, Obs& o) {
+                            Buf<El> A(mem<F>(a));
+                            auto it = C06_ALG(move_backward)(lib, F::at(lib, A, i), F::at(lib, A, j), F::at(lib, A, dl));
+                            o.num(F::off(A, it));
+                            observe(o, A);
+                        }, ocls, [&] { return cat(fl, " a=", keys(a), " first=", i, " last=", j, " d_last=", dl); });
+                    }
+                }
+            }
+        }
+    }
+    if (c.want("iter_swap(a,b)")) {
+        for (std::size_t i = 0; i < n; ++i) {
+            for (std::size_t j = 0; j < n; ++j) {
+                if (i == j) { continue; } // a self-swap of a type whose moved-from state is not its old value is unspecified
+                c.run("iter_swap(a,b)", nt, [&](auto lib, Obs& o) {
+                    Buf<El> A(mem<F>(a));
+                    C06_ALG(iter_swap)(lib, F::at(lib, A, i), F::at(lib, A, j));
+                    o.buf(A);
+                }, [&] { return std::string("general"); }, [&] { return cat(fl, " a=", keys(a), " i=", i, " j=", j); });
+            }
+        }
+    }
+    // swap_ranges with every second range of the same pool that is long enough (tags shifted)
+    if (c.want("swap_ranges(first1,last1,first2)")) {
+        for (std::size_t m = n; m <= n + 1; ++m) {
+            Seq b;
+            for (std::size_t p = 0; p < m; ++p) { b.push_back(E{static_cast<int>((p + 1) % 3), second_tag0 + static_cast<int>(p)}); }
+            c.run("swap_ranges(first1,last1,first2)", nt, [&](auto lib, Obs& o) {
+                Buf<El> A(mem<F>(a));
+                Buf<El> B(mem<F>(b));
+                auto it = C06_ALG(swap_ranges)(lib, F::at(lib, A, 0), F::at(lib, A, n), F::at(lib, B, 0));
+                o.num(F::off(B, it));
+                o.buf(A);
+                o.buf(B);
+            }, [&] { return cat(len_class(n), m > n ? "+second_longer" : ""); }, [&] { return cat(fl, " a=", keys(a), " b=", keys(b)); });
+        }
+    }
+}
+
+template <typename F>
+void job_move(mc::Reporter& r, int qL, int tL)
 {
     Ctx c(r);
     auto const bd   = bounds(r, qL, 0, tL, 0);
@@ -345,11 +494,11 @@ void job_sort(mc::Reporter& r, int qL, int tL)
     r.count("sequences", pool.size());
     for (auto const& a : pool) {
         if (c.out_of_time()) { break; }
-        sort_family<F>(c, a);
+        move_family<F>(c, a);
     }
     r.sample(cat(F::name, ": every sequence of length 0..", bd.L,
-        " over keys {0,1,2}: 8 sorts x {operator<, less, greater, mod2less}, nth_element/partial_sort/inplace_merge at every split"));
-    r.sample(cat(F::name, " a=", keys(pool.back()), " (last sequence)"));
+        " over keys {0,1,2}: move/move_backward to a separate block and within the block for every (first,last,d) the standard allows, "
+        "iter_swap of every pair, swap_ranges"));
 }
 
 } // namespace
@@ -358,27 +507,48 @@ int main(int argc, char** argv)
 {
     mc::Main m(argc, argv);
     std::vector<std::string> const both{"quick", "thorough"};
-#if defined(MC_FLAVOUR_SAN)
+#if defined(C06_MOVEONLY)
+    // move-only element type: quick 0..5, thorough 0..7 (sorts 0..8, + lengths up to 9 / 12 over two keys)
+    m.job("moveonly/permute/ptr", both, [](mc::Reporter& r) { job_permute<PtrF>(r, 5, 7); });
+    m.job("moveonly/permute/fwd", both, [](mc::Reporter& r) { job_permute<FwdF>(r, 5, 7); });
+    m.job("moveonly/permute/bidi", both, [](mc::Reporter& r) { job_permute<BidiF>(r, 5, 7); });
+    m.job("moveonly/sort/ptr", both, [](mc::Reporter& r) { job_sort<PtrF>(r, 5, 8, 9, 12); });
+    m.job("moveonly/sort/ra", both, [](mc::Reporter& r) { job_sort<RaF>(r, 5, 8, 8, 11); });
+    m.job("moveonly/move/ptr", both, [](mc::Reporter& r) { job_move<PtrF>(r, 5, 7); });
+    m.job("moveonly/move/fwd", both, [](mc::Reporter& r) { job_move<FwdF>(r, 5, 7); });
+    m.job("moveonly/move/bidi", both, [](mc::Reporter& r) { job_move<BidiF>(r, 5, 7); });
+    m.job("sub/moveonly/permute/ptr", both, sub([](mc::Reporter& r) { job_permute<PtrF>(r, 5, 7); }));
+    m.job("sub/moveonly/sort/ptr", both, sub([](mc::Reporter& r) { job_sort<PtrF>(r, 5, 7); }));
+    m.job("sub/moveonly/move/bidi", both, sub([](mc::Reporter& r) { job_move<BidiF>(r, 5, 7); }));
+#elif defined(MC_FLAVOUR_SAN)
     // sanitizer build: only the raw-pointer jobs (the wrappers check their own ranges; keeps the compile small)
     m.job("permute/ptr", both, [](mc::Reporter& r) { job_permute<PtrF>(r, 5, 8); });
-    m.job("sort/ptr", both, [](mc::Reporter& r) { job_sort<PtrF>(r, 5, 8); });
+    m.job("sort/ptr", both, [](mc::Reporter& r) { job_sort<PtrF>(r, 5, 8, 9, 11); });
 #else
 #if !defined(MC_PART) || MC_PART == 1
     m.job("permute/ptr", both, [](mc::Reporter& r) { job_permute<PtrF>(r, 5, 8); });
     m.job("permute/fwd", both, [](mc::Reporter& r) { job_permute<FwdF>(r, 5, 8); });
+    m.job("sub/permute/ptr", both, sub([](mc::Reporter& r) { job_permute<PtrF>(r, 5, 8); }));
+    m.job("sub/permute/fwd", both, sub([](mc::Reporter& r) { job_permute<FwdF>(r, 5, 8); }));
 #endif
 #if !defined(MC_PART) || MC_PART == 2
     m.job("permute/bidi", both, [](mc::Reporter& r) { job_permute<BidiF>(r, 5, 8); });
     m.job("permute/ra", both, [](mc::Reporter& r) { job_permute<RaF>(r, 5, 8); });
     m.job("permute/rev", both, [](mc::Reporter& r) { job_permute<RevF>(r, 5, 7); });
+    m.job("sub/permute/bidi", both, sub([](mc::Reporter& r) { job_permute<BidiF>(r, 5, 8); }));
+    m.job("sub/permute/rev", both, sub([](mc::Reporter& r) { job_permute<RevF>(r, 5, 7); }));
 #endif
 #if !defined(MC_PART) || MC_PART == 3
-    m.job("sort/ptr", both, [](mc::Reporter& r) { job_sort<PtrF>(r, 5, 8); });
-    m.job("sort/bidi", both, [](mc::Reporter& r) { job_sort<BidiF>(r, 5, 8); });
+    // three keys: quick 0..6, thorough 0..10; beyond that over two keys: quick up to 10, thorough up to 14
+    m.job("sort/ptr", both, [](mc::Reporter& r) { job_sort<PtrF>(r, 6, 10, 10, 14); });
+    m.job("sort/bidi", both, [](mc::Reporter& r) { job_sort<BidiF>(r, 5, 9, 9, 13); });
+    m.job("sub/sort/ptr", both, sub([](mc::Reporter& r) { job_sort<PtrF>(r, 5, 8, 7, 10); }));
+    m.job("sub/sort/bidi", both, sub([](mc::Reporter& r) { job_sort<BidiF>(r, 5, 8); }));
 #endif
 #if !defined(MC_PART) || MC_PART == 4
-    m.job("sort/ra", both, [](mc::Reporter& r) { job_sort<RaF>(r, 5, 8); });
-    m.job("sort/rev", both, [](mc::Reporter& r) { job_sort<RevF>(r, 5, 7); });
+    m.job("sort/ra", both, [](mc::Reporter& r) { job_sort<RaF>(r, 5, 9, 9, 13); });
+    m.job("sort/rev", both, [](mc::Reporter& r) { job_sort<RevF>(r, 5, 8, 8, 12); });
+    m.job("sub/sort/ra", both, sub([](mc::Reporter& r) { job_sort<RaF>(r, 5, 8); }));
 #endif
 #endif
     return m.run();
